@@ -317,47 +317,60 @@ func c20Foreign(chk *fw.Check) int {
 		"crl_tmp": false, "xcrl_1_tmp": false, "crl_1_tmpx": false, "notes.txt": false, "crl_1_tmp.bak": true,
 		strings.Repeat("ab", 32): true, "CRL_1_TMP": false, "sub": true,
 	}
-	for _, disk := range []bool{false, true} {
-		n++
-		seqWorld(func() {
-			dir := FreshDir("c20s")
-			defer os.RemoveAll(dir)
-			for name, isDir := range foreign {
-				if isDir {
-					os.MkdirAll(filepath.Join(dir, name), 0755)
-					os.WriteFile(filepath.Join(dir, name, "crl_inner_tmp"), []byte("inner"), 0644)
-				} else {
-					os.WriteFile(filepath.Join(dir, name), []byte("foreign"), 0644)
+	// the work_dir itself may carry characters which mean something to pattern matching (glob, regexp)
+	for _, wdName := range []string{"", "crl[1]", "a*b?c", "re(x)+.$", "back\\slash"} {
+		for _, disk := range []bool{false, true} {
+			n++
+			wdName := wdName
+			seqWorld(func() {
+				parent := FreshDir("c20s")
+				defer os.RemoveAll(parent)
+				dir := parent
+				if wdName != "" {
+					dir = filepath.Join(parent, wdName)
+					os.MkdirAll(dir, 0755)
 				}
-			}
-			// genuine left-overs that must go
-			os.WriteFile(filepath.Join(dir, "crl_123_tmp"), []byte("x"), 0644)
-			os.MkdirAll(filepath.Join(dir, "crl_abc_tmp", "deep"), 0755)
-			os.WriteFile(filepath.Join(dir, "crl_abc_tmp", "deep", "f"), []byte("x"), 0644)
-			before := treeSnapshot(dir, "")
-			w := NewCW(CWOpt{Disk: disk, SigMode: config.SignatureValidationModeVerify, Dir: dir})
-			w.Net.Serve(urlA, "doc", doc)
-			if err := w.Provision(); err != nil {
-				chk.Violation("C20|provision-fails|foreign", err.Error(), nil)
-				return
-			}
-			vsched.Drain()
-			after := treeSnapshot(dir, "")
-			for _, d := range treeDiff(before, after) {
-				name := strings.SplitN(d, ":", 2)[1]
-				top := strings.Split(name, "/")[0]
-				if top == "crl_123_tmp" || top == "crl_abc_tmp" {
-					continue
+				for name, isDir := range foreign {
+					if isDir {
+						os.MkdirAll(filepath.Join(dir, name), 0755)
+						os.WriteFile(filepath.Join(dir, name, "crl_inner_tmp"), []byte("inner"), 0644)
+					} else {
+						os.WriteFile(filepath.Join(dir, name), []byte("foreign"), 0644)
+					}
 				}
-				chk.Violation("C20|foreign-entry-touched|"+top, fmt.Sprintf("%s backend: startup cleaning %s (does not match crl_*_tmp)", be(disk), d), nil)
-			}
-			for _, left := range []string{"crl_123_tmp", "crl_abc_tmp"} {
-				if _, ok := after[left]; ok {
-					chk.Violation("C20|leftover-temp-not-removed|"+left, fmt.Sprintf("%s backend: %s survives startup cleaning", be(disk), left), nil)
+				// genuine left-overs that must go
+				os.WriteFile(filepath.Join(dir, "crl_123_tmp"), []byte("x"), 0644)
+				os.MkdirAll(filepath.Join(dir, "crl_abc_tmp", "deep"), 0755)
+				os.WriteFile(filepath.Join(dir, "crl_abc_tmp", "deep", "f"), []byte("x"), 0644)
+				before := treeSnapshot(dir, "")
+				w := NewCW(CWOpt{Disk: disk, SigMode: config.SignatureValidationModeVerify, Dir: dir})
+				w.Net.Serve(urlA, "doc", doc)
+				if err := w.Provision(); err != nil {
+					chk.Violation("C20|provision-fails|foreign", err.Error(), nil)
+					return
 				}
-			}
-			w.Chk.Cleanup()
-		})
+				vsched.Drain()
+				after := treeSnapshot(dir, "")
+				for _, d := range treeDiff(before, after) {
+					name := strings.SplitN(d, ":", 2)[1]
+					top := strings.Split(name, "/")[0]
+					if top == "crl_123_tmp" || top == "crl_abc_tmp" {
+						continue
+					}
+					chk.Violation("C20|foreign-entry-touched|"+top, fmt.Sprintf("%s backend: startup cleaning %s (does not match crl_*_tmp)", be(disk), d), nil)
+				}
+				wd := ""
+				if wdName != "" {
+					wd = "|work_dir-name=" + wdName
+				}
+				for _, left := range []string{"crl_123_tmp", "crl_abc_tmp"} {
+					if _, ok := after[left]; ok {
+						chk.Violation("C20|leftover-temp-not-removed|"+left+wd, fmt.Sprintf("%s backend, work_dir %q: %s survives startup cleaning", be(disk), filepath.Base(dir), left), nil)
+					}
+				}
+				w.Chk.Cleanup()
+			})
+		}
 	}
 	return n
 }
